@@ -6,7 +6,7 @@
     holds for EVERY pair of saturation curves and every pair of B23 curves.  "Away from the
     boundary curves" is exactly: p is on the same side of both modules' curves. *)
 From Coq Require Import ZArith QArith Qreals Reals List Bool Lra.
-From P Require Import Expr Bounds.
+From P Require Import Expr Common.
 From Gen Require Import GenThermo GenTraced.
 Import ListNotations.
 Close Scope Q_scope.
